@@ -101,6 +101,7 @@ def gen_history(rng, tier, profile=None):
         "mode": mode,
         "ops": ops,
         "fund_seed": rng.randrange(1 << 30),
+        "scalars": rng.choice([None] * 10 + ["numpy", "int"]),
     }
 
 
@@ -142,7 +143,7 @@ def gen_deep_cancel_history(rng, tier):
         if rng.random() < 0.5:
             ops.append(["T"])
     return {"tick": tick, "p0": base * tick, "auto": True, "mode": "deep-cancel", "ops": ops,
-            "fund_seed": rng.randrange(1 << 30)}
+            "fund_seed": rng.randrange(1 << 30), "scalars": rng.choice([None] * 10 + ["numpy", "int"])}
 
 
 class DirectRun:
@@ -172,6 +173,16 @@ class DirectRun:
 
         m = self.market
         k = op[0]
+        sc = self.case.get("scalars")
+        if sc and k in ("L", "M", "LX"):
+            # valid but unusual argument types: numpy scalars / ints where bools and ints are expected
+            import numpy as np
+
+            op = list(op)
+            op[1] = np.bool_(op[1]) if sc == "numpy" else int(op[1])
+            ti = {"L": 4, "M": 3}.get(k)
+            if ti is not None and op[ti] is not None and sc == "numpy":
+                op[ti] = np.int64(op[ti])
         if k == "L":
             o = Order(agent_id=op[5], market_id=0, is_buy=op[1], kind=LIMIT_ORDER, volume=op[3], price=op[2], ttl=op[4])
             self.submitted.append(o)
